@@ -64,8 +64,8 @@ J('ComputeRAnsPrecision.contract', 'h_enf_ComputeRAnsPrecision', ['C08', 'C05'],
 J('precision_table', 'h_precision_table', ['C05', 'C08'])
 J('Create.alloc_guard', 'h_rsd_create', ['C08', 'C18', 'C02'], defines=DEFS + ['-DCREATE_PREFIX'], unwind=12,
   unwind_reason='varint recursion <= 5 (+ scalar reads); every path ends at the allocation, no input-length loop is entered; unwinding assertions on', no_vacuity=True)
-J('Create.bounded', 'h_rsd_create', ['C08', 'C02'], defines=DEFS + ['-DCREATE_MAXBYTES=10'], unwind=66,
-  unwind_reason='bounded: at most 10 input bytes after the reader position (<= 10 table tokens, zero runs <= 64 symbols each); look-up table builder by contract',
+J('Create.bounded', 'h_rsd_create', ['C08', 'C02'], defines=DEFS + ['-DCREATE_MAXBYTES=4'], unwind=66, solver='cadical',
+  unwind_reason='bounded: at most 4 input bytes after the reader position (<= 3 table tokens, zero runs <= 64 symbols each); look-up table builder by contract',
   replace=['RAnsDecoder_rans_build_look_up_table'], timeout=1500, cost=8, cbmc=['--object-bits', '10'])
 J('DecodeRawSymbols.contract', 'h_enf_DecodeRawSymbols', ['C08', 'C05', 'C02'], enforce='DecodeRawSymbols', replace=['DecoderBuffer_Decode_u8', 'DecodeRawSymbolsInternal_b'], cbmc=['--object-bits', '10'])
 J('DecodeSymbols.contract', 'h_enf_DecodeSymbols', ['C08', 'C05', 'C02'], enforce='DecodeSymbols', replace=['DecoderBuffer_Decode_u8', 'DecodeRawSymbols', 'DecodeTaggedSymbols_stub'])
